@@ -171,6 +171,15 @@ func c12Call(c pcall) []byte {
 		b := res.Bytes()
 		out.Write(b[:])
 		fmt.Fprint(&out, err)
+		// tiny MSMs under a task count above the number of windows (more splits than points), as a many-core host runs them
+		for _, tiny := range []int{1, 2, 3} {
+			var r2 banderwagon.Element
+			r2.SetIdentity()
+			_, err2 := r2.MultiExp(pts[:minInt(tiny, n)], sc[:minInt(tiny, n)], banderwagon.MultiExpConfig{NbTasks: []int{65, 100, 128, 200, 1024}[(c.K+tiny)%5], ScalarsMont: true})
+			b2 := r2.Bytes()
+			out.Write(b2[:])
+			fmt.Fprint(&out, err2)
+		}
 	case "codec":
 		e := cfg.SRS[c.K]
 		var sc fr.Element
